@@ -143,6 +143,9 @@ class AddCyclicMemoryLayout_contract:
     shapes = SCHED
     # quick: up to two loops, plus three-loop shapes with fixed inner bounds
     quick = lambda sh: sh["n"] <= 2 or "inner" in sh
+    # fully symbolic three-loop TILED shapes leave a non-linear coverage obligation undecided (z3 and cvc5): not covered,
+    # except through the fixed-inner-bounds shapes
+    thorough = lambda sh: not (sh["n"] == 3 and sh["tiled"] and "inner" not in sh)
     total = True
     compare_ret = False
     modular = {"snaxc.transforms.set_memory_layout.spatial_dims": spatial_dims_contract,
